@@ -1791,10 +1791,36 @@ impl<'a, C: Crypto> TransportRunner<'a, C> {
                     .await?;
             }
             Err(e) if matches!(e.code(), ErrorCode::NoExchange) => {
-                mrp_log!(
-                    "\n>>RCV {}\n      => No valid exchange found, dropping",
-                    packet
-                );
+                // A peer closes a session with a `CloseSession` status report sent on an
+                // exchange of its own, which never matches one of ours - honour it here
+                // (the message was authenticated and its counter accepted by then)
+                if MessageMeta::from(&packet.header.proto).is_sc_status()
+                    && matches!(
+                        Self::is_close_session(&mut packet.buf[packet.payload_start..]),
+                        Ok(true)
+                    )
+                {
+                    warn!(
+                        "\n>>RCV {}\n      => Close session received, removing this session",
+                        packet
+                    );
+
+                    self.matter.with_state(|state| {
+                        if let Some(session_id) = state
+                            .sessions
+                            .get_for_rx(&packet.peer, &packet.header.plain)
+                            .map(|sess| sess.id)
+                        {
+                            state.sessions.remove(session_id);
+                            self.transport().notify_session_removed();
+                        }
+                    });
+                } else {
+                    mrp_log!(
+                        "\n>>RCV {}\n      => No valid exchange found, dropping",
+                        packet
+                    );
+                }
             }
             Err(e) if matches!(e.code(), ErrorCode::NoSession) => {
                 // Per Matter Core spec, when a session-bearing
